@@ -232,6 +232,17 @@ class C10(Prop):
                 i = {"a": {"rows": rows, "z": 1}, "b": {"rows": rows2, "z": 1}, "walk": walk, "setters": []}
                 i.update(copy.deepcopy(opt))
                 out.append({"stream": "cmp", "tag": "sys:list-below-list:" + walk, "input": i})
+        for _ in range(40 if quick else 1500):
+            # one pattern given as a bare str or inside a tuple means the same; changed leaves whose NAME occurs in the pattern
+            # text (a step of it, or a part of a longer step) at places that the pattern does not match stay hidden
+            def leaves():
+                return {"a": {"b": rng.randint(0, 9), "x": 1, "id": rng.randint(0, 9)}, "x": {"b": rng.randint(0, 9), "a": rng.randint(0, 9)},
+                        "b": rng.randint(0, 9), "id": rng.randint(0, 9), "paid": rng.randint(0, 9), "name": rng.choice(["p", "q", "r"])}
+            a, b = leaves(), leaves()
+            pat = rng.choice(["/a/b", "//a/b", "//paid", "/x/*", "//x/a", "/a/id", "//ab", "/*/b", "paid", "//a/*"])
+            for only in (pat, [pat]):
+                for walk in ("compare", "direct"):
+                    out.append({"stream": "cmp", "tag": "sys:only-str:" + walk, "input": {"a": a, "b": b, "walk": walk, "setters": [], "only": only}})
         return out
 
     def valid(self, case):
